@@ -1,2 +1,205 @@
-/- C14 — theorems under construction -/
-import MPilot.Model.Program
+/-
+C14 — cyclic models are rejected, never silently skipped.
+
+* `cycle_rejected_before_execution` : when the check finds a cycle, `run` returns the recursive-model error and the state
+  (log, memo) is untouched — nothing executed.
+* `no_cycle_ranked` (soundness of acceptance): when the check finds no cycle, the reference graph of the program has a rank
+  function (every reference goes to a strictly smaller rank) — exactly the acyclicity premise under which C01 shows that every
+  command is executed once and evaluation needs no more fuel than there are commands.  So a cyclic model can never be accepted.
+-/
+import MPilot.Props.C01
+
+namespace MPilot.C14
+open MPilot
+
+variable {Val : Type}
+
+/-- **rejected before anything runs** -/
+theorem cycle_rejected_before_execution (sem : Sem Val) (p : Program) (st : St Val)
+    (info : List (String × List String × List String)) (hpre : prepass (mkCtx sem p st) p.cmds = .ok info)
+    (hcyc : hasCycle p (depsOf info) = true) :
+    run sem p st = (st, some (.mp "RecursiveModelStructure" none)) := by
+  unfold run
+  rw [hpre]
+  simp only [hcyc, if_true]
+
+/-! ### the depth-first check is sound -/
+
+section
+variable (deps : String → List String) (known : String → Bool)
+
+/-- every element's known references occur later in the list -/
+def Topo (d : List String) : Prop :=
+  d.Nodup ∧ ∀ pre x post, d = pre ++ x :: post → ∀ r ∈ deps x, known r = true → r ∈ post
+
+theorem topo_nil : Topo deps known [] := ⟨List.nodup_nil, by intro pre x post h; simp at h⟩
+
+/-- what a successful visit guarantees -/
+structure VisitOk (path done done' : List String) : Prop where
+  topo : Topo deps known done'
+  ext : ∃ pre, done' = pre ++ done
+  fresh : ∀ x ∈ done', x ∈ done ∨ x ∉ path
+
+theorem go_sound (fuel : Nat) (n : String) (path : List String)
+    (ih : ∀ path done m done', visit deps known fuel path done m = some done' → Topo deps known done → m ∉ path →
+      VisitOk deps known path done done' ∧ m ∈ done') :
+    ∀ (rs : List String) (d d' : List String), visit.go deps known fuel path n rs d = some d' → Topo deps known d →
+      VisitOk deps known (n :: path) d d' ∧ ∀ r ∈ rs, known r = true → r ∈ d' := by
+  intro rs
+  induction rs with
+  | nil =>
+    intro d d' h ht
+    unfold visit.go at h
+    injection h with h; subst h
+    exact ⟨⟨ht, ⟨[], by simp⟩, fun x hx => Or.inl hx⟩, by simp⟩
+  | cons r rs ihr =>
+    intro d d' h ht
+    unfold visit.go at h
+    by_cases hc : (n :: path).contains r = true
+    · rw [if_pos hc] at h; cases h
+    · rw [if_neg hc] at h
+      by_cases hs : (d.contains r || !known r) = true
+      · rw [if_pos hs] at h
+        obtain ⟨vo, hall⟩ := ihr d d' h ht
+        refine ⟨vo, ?_⟩
+        intro x hx hk
+        rcases List.mem_cons.mp hx with rfl | hx
+        · obtain ⟨pre, hpre⟩ := vo.ext
+          rw [hpre]
+          apply List.mem_append_right
+          simp only [Bool.or_eq_true, List.contains_iff_mem, Bool.not_eq_eq_eq_not, Bool.not_true] at hs
+          rcases hs with hs | hs
+          · exact hs
+          · rw [hk] at hs; cases hs
+        · exact hall x hx hk
+      · rw [if_neg hs] at h
+        cases hv : visit deps known fuel (n :: path) d r with
+        | none => rw [hv] at h; cases h
+        | some d1 =>
+          rw [hv] at h
+          simp only at h
+          have hrp : r ∉ n :: path := by simpa using hc
+          obtain ⟨vo1, hr1⟩ := ih (n :: path) d r d1 hv ht hrp
+          obtain ⟨vo2, hall⟩ := ihr d1 d' h vo1.topo
+          obtain ⟨p1, hp1⟩ := vo1.ext
+          obtain ⟨p2, hp2⟩ := vo2.ext
+          refine ⟨⟨vo2.topo, ⟨p2 ++ p1, by rw [hp2, hp1, List.append_assoc]⟩, ?_⟩, ?_⟩
+          · intro x hx
+            rcases vo2.fresh x hx with h1 | h1
+            · exact vo1.fresh x h1
+            · exact Or.inr h1
+          · intro x hx hk
+            rcases List.mem_cons.mp hx with rfl | hx
+            · rw [hp2]; exact List.mem_append_right _ hr1
+            · exact hall x hx hk
+
+theorem visit_sound : ∀ (fuel : Nat) (path done : List String) (n : String) (done' : List String),
+    visit deps known fuel path done n = some done' → Topo deps known done → n ∉ path →
+    VisitOk deps known path done done' ∧ n ∈ done' := by
+  intro fuel
+  induction fuel with
+  | zero => intro path done n done' h; unfold visit at h; cases h
+  | succ fuel ih =>
+    intro path done n done' h ht hnp
+    unfold visit at h
+    by_cases hd : done.contains n = true
+    · rw [if_pos hd] at h
+      injection h with h; subst h
+      exact ⟨⟨ht, ⟨[], by simp⟩, fun x hx => Or.inl hx⟩, by simpa using hd⟩
+    · rw [if_neg hd] at h
+      have hnd : n ∉ done := by simpa using hd
+      cases hg : visit.go deps known fuel path n (deps n) done with
+      | none => rw [hg] at h; cases h
+      | some d =>
+        rw [hg] at h
+        simp only at h
+        injection h with h; subst h
+        obtain ⟨vo, hall⟩ := go_sound deps known fuel n path ih (deps n) done d hg ht
+        obtain ⟨pre, hpre⟩ := vo.ext
+        have hnd' : n ∉ d := by
+          intro hm
+          rcases vo.fresh n hm with h1 | h1
+          · exact hnd h1
+          · exact h1 (List.mem_cons_self ..)
+        refine ⟨⟨⟨List.nodup_cons.mpr ⟨hnd', vo.topo.1⟩, ?_⟩, ⟨n :: pre, by rw [hpre]; rfl⟩, ?_⟩, List.mem_cons_self ..⟩
+        · intro pre' x post hsplit r hr hk
+          cases pre' with
+          | nil =>
+            simp only [List.nil_append, List.cons.injEq] at hsplit
+            obtain ⟨rfl, rfl⟩ := hsplit
+            exact hall r hr hk
+          | cons y pre'' =>
+            simp only [List.cons_append, List.cons.injEq] at hsplit
+            exact vo.topo.2 pre'' x post hsplit.2 r hr hk
+        · intro x hx
+          rcases List.mem_cons.mp hx with rfl | hx
+          · exact Or.inr hnp
+          · rcases vo.fresh x hx with h1 | h1
+            · exact Or.inl h1
+            · exact Or.inr fun hp => h1 (List.mem_cons_of_mem _ hp)
+
+end
+
+/-- the outer loop of the check: visits every command -/
+theorem hasCycle_go_sound (p : Program) (deps : String → List String) :
+    ∀ (cs : List PCmd) (done : List String), hasCycle.go p deps (fun n => (p.find? n).isSome) cs done = false →
+      Topo deps (fun n => (p.find? n).isSome) done →
+      ∃ D, Topo deps (fun n => (p.find? n).isSome) D ∧ (∀ c ∈ cs, c.resultName ∈ D) ∧ ∀ x ∈ done, x ∈ D := by
+  intro cs
+  induction cs with
+  | nil => intro done _ ht; exact ⟨done, ht, by simp, fun x hx => hx⟩
+  | cons c rest ih =>
+    intro done h ht
+    unfold hasCycle.go at h
+    cases hv : visit deps (fun n => (p.find? n).isSome) (p.cmds.length + 1) [] done c.resultName with
+    | none => rw [hv] at h; cases h
+    | some d =>
+      rw [hv] at h
+      simp only at h
+      obtain ⟨vo, hmem⟩ := visit_sound deps _ _ [] done c.resultName d hv ht (by simp)
+      obtain ⟨D, hD, hall, hsub⟩ := ih d h vo.topo
+      obtain ⟨pre, hpre⟩ := vo.ext
+      refine ⟨D, hD, ?_, fun x hx => hsub x (by rw [hpre]; exact List.mem_append_right _ hx)⟩
+      intro x hx
+      rcases List.mem_cons.mp hx with rfl | hx
+      · exact hsub _ hmem
+      · exact hall x hx
+
+/-- position-based rank: commands nearer the end of the finishing order have smaller rank; names that are not commands have rank 0 -/
+def rankOf (D : List String) (x : String) : Nat := D.length - D.idxOf x
+
+/-- **soundness of acceptance.**  If the check reports no cycle, every reference between commands goes to a strictly smaller rank:
+the reference graph is acyclic.  Contrapositive: a model whose references contain a cycle (a self-reference included) is always rejected. -/
+theorem no_cycle_ranked (p : Program) (deps : String → List String) (h : hasCycle p deps = false) :
+    ∃ r : String → Nat, ∀ c ∈ p.cmds, ∀ d ∈ deps c.resultName, (p.find? d).isSome = true → r d < r c.resultName := by
+  unfold hasCycle at h
+  obtain ⟨D, ⟨hnd, htopo⟩, hall, _⟩ := hasCycle_go_sound p deps p.cmds [] h (topo_nil deps _)
+  refine ⟨rankOf D, ?_⟩
+  intro c hc d hd hk
+  have hcD := hall c hc
+  obtain ⟨pre, post, hsplit⟩ := List.append_of_mem hcD
+  have hdpost := htopo pre c.resultName post hsplit d hd hk
+  -- positions: c at |pre|, d somewhere in post
+  have hnd' : (pre ++ c.resultName :: post).Nodup := hsplit ▸ hnd
+  have hcpre : c.resultName ∉ pre := by
+    intro hm
+    have := List.nodup_append.mp hnd'
+    exact this.2.2 _ hm _ (List.mem_cons_self ..) rfl
+  have hic : D.idxOf c.resultName = pre.length := by
+    rw [hsplit, List.idxOf_append_of_notMem hcpre]; simp
+  have hdpre : d ∉ pre := by
+    intro hm
+    have := List.nodup_append.mp hnd'
+    exact this.2.2 _ hm _ (List.mem_cons_of_mem _ hdpost) rfl
+  have hdc : d ≠ c.resultName := by
+    intro e
+    have := (List.nodup_cons.mp (List.nodup_append.mp hnd').2.1).1
+    exact this (e ▸ hdpost)
+  have hid : D.idxOf d = pre.length + 1 + post.idxOf d := by
+    rw [hsplit, List.idxOf_append_of_notMem hdpre, List.idxOf_cons_ne _ (Ne.symm hdc)]; omega
+  have hlt : post.idxOf d < post.length := List.idxOf_lt_length_of_mem hdpost
+  have hlen : D.length = pre.length + 1 + post.length := by rw [hsplit]; simp; omega
+  unfold rankOf
+  omega
+
+end MPilot.C14
